@@ -416,7 +416,8 @@ def run_one(args):
     # V3
     an = ia.Analyzer(F)
     R = requires.Req(F, A, an)
-    for r in ("GF-LIMITS", "params-only-from-decoder", "T-LIMIT-HEIGHT", "T-LIMIT-CHAINS", "T-LIMIT-SIGLEN", "chain-loops-run-to-p", "auth-path-loop-runs-to-height"):
+    # (the loop-shape facts some capacity obligations depend on are checked where such an obligation is actually used, not here)
+    for r in ("GF-LIMITS", "params-only-from-decoder", "T-LIMIT-HEIGHT", "T-LIMIT-CHAINS", "T-LIMIT-SIGLEN"):
         ok, why = R.check(r)
         chk.ob("V3." + r, name, ok, "%s does not hold in configuration %s: %s" % (r, name, why))
         chk.note("%s: %s: %s" % (name, r, why[:200]))
@@ -440,7 +441,7 @@ def run(chk, ctx):
     v1_limit_uses(chk, F0, None, tree0, "")
     an0 = ia.Analyzer(F0)
     R0 = requires.Req(F0, A0, an0)
-    for r in ("GF-LIMITS", "params-only-from-decoder", "T-LIMIT-HEIGHT", "T-LIMIT-CHAINS", "chain-loops-run-to-p", "auth-path-loop-runs-to-height"):
+    for r in ("GF-LIMITS", "params-only-from-decoder", "T-LIMIT-HEIGHT", "T-LIMIT-CHAINS"):
         ok, why = R0.check(r)
         chk.ob("V3." + r, "default", ok, "%s does not hold in the default build: %s" % (r, why))
     env = {k: os.environ[k] for k in ("LMS_REPO", "LMS_OUT", "LMS_FACTS_DIR") if k in os.environ}
